@@ -15,7 +15,7 @@ func init() { hx.Register("C12", Run, Replay) }
 type kase struct {
 	Seed  uint64 `json:"seed"`
 	Index int    `json:"index"`
-	Mode  string `json:"mode"` // doc | layout | fixed | nested | e2e
+	Mode  string `json:"mode"` // doc | layout | fixed | nested | e2e | sent | usp | addpage | history | atomic
 	Name  string `json:"name,omitempty"`
 }
 
@@ -151,6 +151,15 @@ func runDocCase(c *hx.Ctx, k kase, d ldoc, sz sizeCase, tie bool) {
 	}
 	if tie {
 		c.Op("c12.chunk "+splitTable(d, effCfg(sz))+" "+docWire(d), dumpChunks(vs))
+		// the same with IsAboveMax/SplitToSize computed by the model of C13 (compose.go)
+		if w, ok := sizeWire(sz); ok && textBytes(d) <= 30000 {
+			c.Op("c12.chunkc "+w+" "+docWire(d), dumpChunks(vs))
+			if strings.Contains(dumpSplit(d, effCfg(sz)), ":") {
+				c.Count("doc/splitter-by-model/some-block-split")
+			} else {
+				c.Count("doc/splitter-by-model/no-block-split")
+			}
+		}
 	}
 	atoms := atomsOf(d, func(int) bool { return true })
 	checkChunks(c, coverOpts{prefix: "C12/", kinds: allKinds, crossKind: true, exactPage: true, inPath: allKinds, pages: pagesOf(d)},
@@ -271,6 +280,12 @@ var tieBudget int
 // texts recur (tokGen.repeat).
 const repeatFrom = 4000000
 
+// sentFrom: cases of the sentence family (sent.go).
+const sentFrom = 8000000
+
+// uspFrom: histories of updateSectionPath calls and AddPage sequences (api.go).
+const uspFrom = 9000000
+
 func repeatIdx(idx int) bool { return idx >= repeatFrom }
 
 // countRepeats records how heading texts recur in d: on another page, on the same
@@ -376,7 +391,21 @@ func runIndex(c *hx.Ctx, idx int, mode string) {
 }
 
 func Run(c *hx.Ctx) {
-	c.Rep.Rule = "random logical documents (0-9 pages, 0-8 elements per page: headings of levels 1-6 in any order, paragraphs of 1 word .. 4x the configured maximum, nested ordered/unordered lists, ragged tables, images with/without alt text, empty pages, pages without layout, non-consecutive page numbers, heading-like paragraphs matched through the table of contents) built as model.Document with Elements and Layout filled consistently; every text is made of words unique in the document; x all size presets and random custom size configurations (characters, tokens, words, sentences, paragraphs) x both chunkers (layout-based chunker with default, RAG-optimized and random ChunkerConfig); plus outline documents (heading nesting 2-6 deep, 2-4 sibling sections under one parent at every depth, each with its own body, one section per page or several, skipped and uneven sibling levels) through the element-based chunker and through the layout-based chunker under every MinHeadingLevel 1..6 with random non-size options; plus the same three families (random, layout, outline) and HTML files with recurring heading texts: about half of the headings take the text of an earlier heading (a few texts recur often, as \"Overview\" under every chapter) under other parents, on other pages and on the same page, at the same and at other levels, about half of them delivered as heading-like paragraphs matched through Layout.Headings and the rest as model.Heading elements, all other texts unique, a repeated heading being identified by its position among the occurrences of its text; non-trivial = at least one element"
+	c.Rep.Rule = "random logical documents (0-9 pages, 0-8 elements per page: headings of levels 1-6 in any order, paragraphs of 1 word .. 4x the configured maximum, nested ordered/unordered lists, ragged tables, images with/without alt text, empty pages, pages without layout, non-consecutive page numbers, heading-like paragraphs matched through the table of contents) built as model.Document with Elements and Layout filled consistently; every text is made of words unique in the document; x all size presets and random custom size configurations (characters, tokens, words, sentences, paragraphs) x both chunkers (layout-based chunker with default, RAG-optimized and random ChunkerConfig); plus outline documents (heading nesting 2-6 deep, 2-4 sibling sections under one parent at every depth, each with its own body, one section per page or several, skipped and uneven sibling levels) through the element-based chunker and through the layout-based chunker under every MinHeadingLevel 1..6 with random non-size options; plus the same three families (random, layout, outline) and HTML files with recurring heading texts: about half of the headings take the text of an earlier heading (a few texts recur often, as \"Overview\" under every chapter) under other parents, on other pages and on the same page, at the same and at other levels, about half of them delivered as heading-like paragraphs matched through Layout.Headings and the rest as model.Heading elements, all other texts unique, a repeated heading being identified by its position among the occurrences of its text; table cells now and then hold pipes (escaped by Table.ToMarkdown); every tied document is sent a second time with only its size configuration (presets by name), the Lean side computing IsAboveMax/SplitToSize itself, and every tied layout case a second time without sentence pieces (splitIntoSentences computed by the model) and, for half of the list-atomic ones, a third time through the index-driven loop with FindAtomicBlocks/GetAtomicBlockAt; tabula.Open(html).Chunks() is compared with the model applied to Document(); plus a sentence family (layout documents with maxima 12-160 whose texts are 1 word .. 4x the maximum with sentence ends before blanks, capitals, lower-case ASCII and non-ASCII letters, initials, abbreviations, decimals, several ends in a row, continuation bytes 0x85/0xA0 before a capital; splitIntoSentences alone on such texts and on a stream over a tricky alphabet); histories of 0-12 updateSectionPath calls (two thirds without a skipped level, one third with arbitrary levels), AddPage sequences (numbers unset, preset, mixed), block-type sequences for FindAtomicBlocks, the named size presets and chunker configurations, and histories of 5-8 calls on one DocumentChunker and one Chunker over 2-3 documents; non-trivial = at least one element"
+	runPresets(c)
+	runChunkerSettings(c)
+	for i, n := 0, c.N(300, 3000); i < n; i++ {
+		runUpdatePath(c, uspFrom+i)
+	}
+	for i, n := 0, c.N(100, 1000); i < n; i++ {
+		runAddPage(c, uspFrom+500000+i)
+	}
+	for i, n := 0, c.N(120, 1200); i < n; i++ {
+		runHistory(c, uspFrom+700000+i)
+	}
+	for i, n := 0, c.N(300, 3000); i < n; i++ {
+		runAtomic(c, uspFrom+800000+i)
+	}
 	fd := fixedDocs()
 	for _, name := range hx.SortedKeys(fd) {
 		d := fd[name]
@@ -416,6 +445,11 @@ func Run(c *hx.Ctx) {
 	for i := 0; i < q; i++ {
 		runNested(c, repeatFrom+2000000+i)
 	}
+	// splitIntoSentences alone and through the layout-based chunker (sent.go)
+	q = c.N(400, 4000)
+	for i := 0; i < q; i++ {
+		runSentIndex(c, sentFrom+i)
+	}
 	runEndToEnd(c)
 }
 
@@ -441,6 +475,16 @@ func Replay(c *hx.Ctx, ks map[string]interface{}) {
 	case "nested":
 		tieBudget = 0
 		runNested(c, int(idx))
+	case "sent":
+		runSentIndex(c, int(idx))
+	case "usp":
+		runUpdatePath(c, int(idx))
+	case "addpage":
+		runAddPage(c, int(idx))
+	case "history":
+		runHistory(c, int(idx))
+	case "atomic":
+		runAtomic(c, int(idx))
 	case "e2e":
 		runEndToEnd(c)
 	}
